@@ -40,3 +40,17 @@ mut('c11-color-5th-accepted', ['C11'], 'src/section/colors/mod.rs', "let none = 
 mut('c11-named-colour-append', ['C11'], 'src/section/colors/decode.rs', "Some(old) => old.color = color,", "Some(_) => state.custom_colors.push(CustomColor { name, color }),")
 mut('c11-unknown-value-resets', ['C11'], 'src/section/general/decode.rs', "GeneralKey::PreviewTime => state.preview_time = i32::parse(value)?,", "GeneralKey::PreviewTime => { state.preview_time = -1; state.preview_time = i32::parse(value)? }")
 mut('c11-audio-leadin-float', ['C11'], 'src/section/general/decode.rs', "GeneralKey::AudioLeadIn => state.audio_lead_in = f64::from(i32::parse(value)?),", "GeneralKey::AudioLeadIn => state.audio_lead_in = f64::parse(value)?,")
+# ---- C14
+mut('c14-slider-before-circle', ['C14'], 'src/section/hit_objects/decode.rs', "let kind = if hit_object_type.has_flag(HitObjectType::CIRCLE) {", "let kind = if hit_object_type.has_flag(HitObjectType::CIRCLE) && !hit_object_type.has_flag(HitObjectType::SLIDER) {")
+mut('c14-combo-offset-without-nc', ['C14'], 'src/section/hit_objects/decode.rs', "                combo_offset: if new_combo { combo_offset } else { 0 },\n            };\n\n            HitObjectKind::Circle(circle)", "                combo_offset,\n            };\n\n            HitObjectKind::Circle(circle)")
+mut('c14-repeat-9001', ['C14'], 'src/section/hit_objects/decode.rs', "if repeat_count > 9000 {", "if repeat_count > 9001 {")
+mut('c14-catmull-dup-split', ['C14'], 'src/section/hit_objects/decode.rs', "if path_type == PathType::CATMULL && end_idx > 1 {", "if path_type == PathType::CATMULL && end_idx > 2 {")
+mut('c14-pos-round', ['C14'], 'src/section/hit_objects/decode.rs', "x: x.parse_with_limits(MAX_COORDINATE_VALUE as f32)? as i32 as f32,", "x: (x.parse_with_limits(MAX_COORDINATE_VALUE as f32)?).round(),")
+mut('c14-finish-whistle-order', ['C14'], 'src/section/hit_objects/hit_samples.rs', "        if sound_type.has_flag(HitSoundType::FINISH) {\n            sound_types.push(HitSampleInfo::new(\n                HitSampleInfo::HIT_FINISH,", "        if sound_type.has_flag(HitSoundType::WHISTLE) {\n            sound_types.push(HitSampleInfo::new(\n                HitSampleInfo::HIT_FINISH,")
+mut('c14-addition-fallback', ['C14'], 'src/section/hit_objects/hit_samples.rs', "self.bank_for_addition = add_bank.or(normal_bank);", "self.bank_for_addition = add_bank;")
+mut('c14-volume-negative', ['C14'], 'src/section/hit_objects/hit_samples.rs', "self.volume = cmp::max(0, next.parse_num()?);", "self.volume = next.parse_num()?;")
+mut('c14-spinner-after-combo', ['C14'], 'src/section/hit_objects/decode.rs', ".is_some_and(|kind| kind.has_flag(HitObjectType::SPINNER))", ".is_some_and(|kind| kind.has_flag(HitObjectType::SPINNER) || kind.has_flag(HitObjectType::HOLD))")
+mut('c14-hold-end-min', ['C14'], 'src/section/hit_objects/decode.rs', "end_time = start_time.max(new_end_time);", "end_time = new_end_time;")
+mut('c14-node-sound-default', ['C14'], 'src/section/hit_objects/decode.rs', "*sound_type = s.parse().unwrap_or_default();", "if let Ok(st) = s.parse() { *sound_type = st; }")
+mut('c14-perfect-4pts-stays', ['C14'], 'src/section/hit_objects/decode.rs', "            } else {\n                path_type = PathType::BEZIER;\n            }", "            } else if self.vertices.len() < 3 {\n                path_type = PathType::BEZIER;\n            }")
+mut('c14-len-eps', ['C14'], 'src/section/hit_objects/decode.rs', "if new_len.abs() >= f64::EPSILON {", "if new_len.abs() > 0.0 {")
